@@ -11,7 +11,7 @@ from common import R, Ro, fl
 
 from common import wiring_pre_build as pre_build  # noqa: E402,F401
 
-LEAN_MODULES = ["PyomaVerif.Props.C16", "PyomaVerif.Props.C16Extract", "PyomaVerif.Mutants.C16", "PyomaVerif.Mutants.C16Extract", "PyomaVerif.Props.WiringMpe", "PyomaVerif.Props.WiringClass", "PyomaVerif.Props.WiringCalls"]
+LEAN_MODULES = ["PyomaVerif.Props.C16", "PyomaVerif.Props.C16Extract", "PyomaVerif.Mutants.C16", "PyomaVerif.Mutants.C16Extract", "PyomaVerif.Props.WiringMpe", "PyomaVerif.Props.WiringClass", "PyomaVerif.Props.WiringCalls", "PyomaVerif.Props.WiringPick"]
 THEOREMS = [
     # call-site wiring of the class layer, regenerated from /repo on every run (translate_wiring.py)
     "PV.WiringMpe.C16_handover_wiring",
@@ -19,6 +19,20 @@ THEOREMS = [
     "PV.WiringMpe.C16_from_plot_stores",
     "PV.WiringClass.C16_from_plot_inherited",
     "PV.WiringCalls.C16_from_plot_calls",
+    # the dialog's own wiring (support/sel_from_plot.py: event connections, per-instance state, hand-over tuple), same translator
+    "PV.WiringPick.C16_connections_stab",
+    "PV.WiringPick.C16_connections_fdd",
+    "PV.WiringPick.C16_events_exact",
+    "PV.WiringPick.C16_connected_before_mainloop",
+    "PV.WiringPick.C16_closing",
+    "PV.WiringPick.C16_instance_state",
+    "PV.WiringPick.C16_no_class_state",
+    "PV.WiringPick.C16_result_tuple",
+    "PV.WiringPick.C16_step_wired_stab",
+    "PV.WiringPick.C16_step_wired_fdd",
+    "PV.WiringPick.C16_init_wired",
+    "PV.WiringPick.C16_dialog_wired_stab",
+    "PV.WiringPick.C16_dialog_wired_fdd",
     "PV.C16.C16_refine",
     "PV.C16.C16_handover",
     "PV.C16.C16_fdd",
